@@ -47,7 +47,7 @@ func srcSock(i int) (*net.UDPConn, error) {
 // fwdSock binds the destination of a possible forward (only addresses in 127.0.13.0/24
 // other than the children's own).
 func fwdSock(da []byte, dp int) *net.UDPConn {
-	if len(da) != 4 || da[0] != 127 || da[1] != 0 || da[2] != 13 || da[3] == 1 || da[3] == 4 || da[3] == 5 || dp == 0 {
+	if len(da) != 4 || da[0] != 127 || da[1] != 0 || da[2] != 13 || da[3] == 1 || da[3] == 4 || da[3] == 5 || da[3] == 11 || dp == 0 {
 		return nil
 	}
 	key := fmt.Sprintf("%d.%d.%d.%d:%d", da[0], da[1], da[2], da[3], dp)
@@ -164,7 +164,7 @@ func handleOnce(p *pkt, cfg childCfg, data []byte) (ans string, retry bool) {
 	// The sentinel goes out from the same source socket: same 4-tuple, same SO_REUSEPORT
 	// socket, same goroutine, hence processed after the crafted datagram.
 	var sdata []byte
-	if p.mode == "srv" {
+	if p.mode != "disp" {
 		sdata, _ = sentinel(p).bytes()
 	} else {
 		// the dispatcher serves nothing; its sentinel is a forward to a socket of ours
@@ -311,7 +311,8 @@ func fmtReply(p *pkt, r *parsed) string {
 				spi, alg := scion.PacketAuthOptMetadata(opt)
 				au = fmt.Sprintf("%d:%d", spi, alg)
 				last.replyMeta = au
-				if r.l4 == "udp" && replyMACok(r, opt) {
+				key, kerr := p.key()
+				if r.l4 == "udp" && kerr == nil && replyMACok(r, opt, key) {
 					last.replyMAC = "ok"
 				} else {
 					last.replyMAC = "bad"
